@@ -645,6 +645,9 @@ def check_block_loop(ctx, KINDS):
         dropped = bool(d1 or d2 or decs)
         stopped_lit = [pol for t, pol in p.literals() if A.src(t) in N.stopped]
         in_handler = any(e[0] == "exc" for e in p.ev)
+        # did the branch signal LenaStopFill on this path?  With the flag idiom the test of the flag says so; where the code
+        # leaves the fill loop by `break` in the handler and continues in the loop's else (no flag), the handler event does
+        signalled = bool(stopped_lit[-1]) if stopped_lit else in_handler
         desc = p.describe(5)
         # C03-d pairing
         if odd:
@@ -685,11 +688,11 @@ def check_block_loop(ctx, KINDS):
             ok = cnt("run") == 1 and not dropped and len(runs[0].args) == 1 and A.src(runs[0].args[0]) == N.buf
             msg = "a plain sequence runs the block (run(buf)) exactly once and stays active"
         elif k == "fill_compute":
-            want_compute = 1 if (stopped_lit and stopped_lit[-1]) else 0
+            want_compute = 1 if signalled else 0
             ok = cnt("compute") == want_compute and dropped == bool(want_compute)
             msg = "a fill_compute branch is computed (once) and dropped only when it signalled LenaStopFill, otherwise kept"
         else:
-            ok = cnt("request") == 1 and dropped == bool(stopped_lit and stopped_lit[-1])
+            ok = cnt("request") == 1 and dropped == signalled
             msg = "a fill_request branch yields request() exactly once per block and is dropped only when it signalled LenaStopFill"
             # request comes after the fills
             fills = [i for i, a, _ in calls if a == "fill"]
@@ -726,15 +729,22 @@ def check_block_loop(ctx, KINDS):
     # C03-c: every fill is enclosed by except LenaStopFill with stopped = True; break
     fills = [c for c in A.walk_local(fn) if isinstance(c, ast.Call) and isinstance(c.func, ast.Attribute) and c.func.attr == "fill"
              and isinstance(c.func.value, ast.Name) and c.func.value.id == seqvar]
+    structured = set()
     for c in fills:
         tr = A.enclosing(c, (ast.Try,))
         ok = tr is not None and any(c in list(ast.walk(s)) for s in tr.body)
         hs = [h for h in (tr.handlers if tr is not None else []) if h.type is not None and res.canon(h.type) == LSF]
         ok = ok and len(hs) == 1
         if ok:
-            body = hs[0].body
-            ok = any(isinstance(s, ast.Assign) and A.is_const(s.value, True) and A.src(s.targets[0]) in N.stopped for s in body) \
-                and isinstance(body[-1], ast.Break)
+            body = [s for s in hs[0].body if not A.is_noop_stmt(s)]
+            sets_flag = any(isinstance(s, ast.Assign) and A.is_const(s.value, True) and A.src(s.targets[0]) in N.stopped for s in body)
+            floop = A.enclosing(c, (ast.For,))
+            # the handler leaves the fill loop; what happens then is decided on the paths (C03-b/C03-c: finalised and dropped
+            # iff the handler was entered).  Either it records the stop in the flag, or the loop's else clause is the
+            # continuation of the branch that was not stopped (`for ..: try: fill except LenaStopFill: break / else: ..`)
+            ok = bool(body) and isinstance(body[-1], ast.Break) and (sets_flag or (len(body) == 1 and floop is not None and bool(floop.orelse)))
+            if ok and not sets_flag:
+                structured.add(id(floop))
             wide = [h for h in tr.handlers if h is not hs[0]]
             ok = ok and not wide
         ctx.check("C03-c", ok, c, "`%s` in Split.run is not enclosed by `except LenaStopFill: stopped = True; break` (and nothing wider): "
@@ -744,6 +754,9 @@ def check_block_loop(ctx, KINDS):
     # `stopped` starts False before each fill loop
     for c in fills:
         loop = A.enclosing(c, (ast.For,))
+        if id(loop) in structured:
+            ctx.ok("C03-c", loop, "no flag: the handler breaks out of the fill loop, the loop's else continues the unstopped branch")
+            continue
         blk = A.parent(loop)
         body = [st for st in getattr(blk, "body", []) if st is loop or not A.is_noop_stmt(st)]
         idx = body.index(loop) if loop in body else -1
